@@ -62,9 +62,23 @@ def handler_cls(e):
     return 9 if c == 1 else c
 
 
+# messages carry text that means something to str.format / %-formatting / JSON: replaying must preserve it literally
+MSG_TAILS = ["", " {k} {0}", " 100% }{", ' {"id": 1, "tags": ["a"]}']
+
+
+def msg_text(msg):
+    return "zq%dzq%s" % (msg, MSG_TAILS[msg % len(MSG_TAILS)])
+
+
 def msg_of(e):
     m = re.search(r"zq(\d+)zq", str(e))
-    return int(m.group(1)) if m else 0
+    if not m:
+        return 0
+    n = int(m.group(1))
+    # the text after the marker must be the original one (a replayed exception may append its stack-trace note)
+    if not str(e)[m.end():].startswith(MSG_TAILS[n % len(MSG_TAILS)]):
+        return 990000 + n
+    return n
 
 
 def sum_slots(rs):
@@ -228,8 +242,9 @@ def render(prog, modname):
                 L.append(ind + "s += progs.sum_slots(_rs)")
         m, r, cls, msg = d["raise"]
         if m:
-            exc = {0: 'ValueError("zq%dzq")' % msg, 1: 'Opaque("zq%dzq", 1)' % msg, 2: '%s("zq%dzq")' % ("NmSub" if msg % 2 else "NonMemoizedException", msg),
-                   3: 'shutil.Error("zq%dzq")' % msg, 4: 'configparser.Error("zq%dzq")' % msg}[cls]
+            t = repr(msg_text(msg))
+            exc = {0: 'ValueError(%s)' % t, 1: 'Opaque(%s, 1)' % t, 2: '%s(%s)' % ("NmSub" if msg % 2 else "NonMemoizedException", t),
+                   3: 'shutil.Error(%s)' % t, 4: 'configparser.Error(%s)' % t}[cls]
             L += ["    if a >= 0 and a %% %d == %d:" % (m, r), "        raise %s" % exc]
         L.append("    return s + %d + 10 * a" % d["const"])      # the value depends on the argument
         L.append("")
